@@ -1044,16 +1044,20 @@ func (r *Resolver) checkDname(
 
 var errAnswerMismatch = errors.New("answer section does not answer the question")
 
-// answersQuestion reports whether some record of an answer section is of the
-// question's type, or an alias (CNAME, DNAME) that leads on from it; every
-// record answers a question of type ANY.
+// answersQuestion reports whether an answer section starts answering the
+// question: some record owned by the name that was asked is of the type that
+// was asked (any type, for ANY) or a CNAME, or a DNAME at or above the name
+// redirects it. A record of the right type under another owner is no more an
+// answer than a record of another type under the right one.
 func answersQuestion(answer []dns.RR, q dns.Question) bool {
 	for _, rr := range answer {
-		switch rr.Header().Rrtype {
-		case q.Qtype, dns.TypeCNAME, dns.TypeDNAME:
-			return true
+		h := rr.Header()
+		if strings.EqualFold(h.Name, q.Name) {
+			if h.Rrtype == q.Qtype || h.Rrtype == dns.TypeCNAME || q.Qtype == dns.TypeANY {
+				return true
+			}
 		}
-		if q.Qtype == dns.TypeANY {
+		if h.Rrtype == dns.TypeDNAME && dns.IsSubDomain(h.Name, q.Name) {
 			return true
 		}
 	}
